@@ -166,15 +166,83 @@ def replay(case):
     return []
 
 
+def atheris_campaign(sh, runs, max_time):
+    """Coverage-guided byte-level campaign (libFuzzer via atheris) in a child process; a crash artifact is re-judged
+    by run_once() here, so only the documented oracle decides.  Skipped with a note when atheris is unavailable."""
+    import glob
+    import os
+    import re
+    import shutil
+    import subprocess
+    import tempfile
+
+    here = os.path.dirname(os.path.dirname(os.path.dirname(os.path.abspath(__file__))))
+    target = os.path.join(here, "vf", "fuzz", "c20_target.py")
+    try:
+        import importlib.util
+
+        sys.path.append(os.path.join(here, ".deps"))
+        if importlib.util.find_spec("atheris") is None:
+            sh.notes["atheris-unavailable"] += 1
+            return
+    except Exception:  # noqa: BLE001
+        sh.notes["atheris-unavailable"] += 1
+        return
+    tmp = tempfile.mkdtemp(prefix="c20-fuzz-")
+    try:
+        corpus = os.path.join(tmp, "corpus")
+        os.makedirs(corpus)
+        if sh.index % 2 == 0:  # half of the campaigns start from the committed seeds, half from an empty corpus
+            for f in glob.glob(os.path.join(here, "corpus", "C20", "*")):
+                shutil.copy(f, corpus)
+        env = dict(os.environ, NIMA_REPO=nima.REPO, PYTHONDONTWRITEBYTECODE="1")
+        if any(q.get("flags", {}).get("skip_leading_ws") for q in (sh.quarantine or [])):
+            env["VF_SKIP_LEADING_WS"] = "1"
+        cmd = [sys.executable, "-B", target, f"-runs={runs}", "-max_len=200", f"-seed={sh.hseed % (2**31 - 1) + 1}", f"-max_total_time={max_time}", f"-artifact_prefix={tmp}/art-", corpus]
+        try:
+            p = subprocess.run(cmd, stdout=subprocess.PIPE, stderr=subprocess.STDOUT, env=env, timeout=max_time + 120)
+            log = p.stdout.decode("utf-8", "replace")
+        except subprocess.TimeoutExpired:
+            sh.notes["atheris-timeout"] += 1
+            return
+        m = re.search(r"Done (\d+) runs", log) or re.search(r"stat::number_of_executed_units: (\d+)", log)
+        done = int(m.group(1)) if m else 0
+        sh.notes["atheris-executions"] += done
+        sh.classes["atheris:" + ("seeded" if sh.index % 2 == 0 else "empty-corpus")] += 1
+        sh.evaluations += done
+        for art in glob.glob(os.path.join(tmp, "art-*")):
+            data = open(art, "rb").read()
+            try:
+                text = data.decode("utf-8")
+            except UnicodeDecodeError:
+                continue
+            if not cst.env_ok(text):
+                continue
+            status, sig = run_once(text)
+            case = {"kind": "text", "text": text}
+            if status == "crash":
+                sh.fail(f"crash:{sig}|atheris", case, {"sig": sig})
+            elif cst.parse(text).root.has_error:
+                try:
+                    if nima.rt(text) != text:
+                        sh.fail("erroneous-text-not-passed-through|atheris", case, {})
+                except Exception:  # noqa: BLE001
+                    pass
+    finally:
+        shutil.rmtree(tmp, ignore_errors=True)
+
+
 def plan(tier):
-    return {"shards": 16, "examples": 1200 if tier == "quick" else 30000, "depths": [3, 6] if tier == "quick" else [3, 4, 5, 6], "wall_limit": 300 if tier == "quick" else 2400}
+    return {"shards": 16, "examples": 1200 if tier == "quick" else 30000, "depths": [3, 6] if tier == "quick" else [3, 4, 5, 6], "fuzz_runs": 30000 if tier == "quick" else 3000000, "fuzz_time": 20 if tier == "quick" else 420, "wall_limit": 300 if tier == "quick" else 2400}
 
 
 def run_shard(sh):
     examples = int(sh.params["examples"] * sh.params.get("scale", 1.0))
     blocked = make_blocked(sh.quarantine)
     fam_block = {q["family"] for q in (sh.quarantine or []) if "family" in q}
-    injector = T.Injector(T.ALL_CLASSES, blocked=blocked)
+    one_per = any(q.get("flags", {}).get("one_comment_per_construct") for q in (sh.quarantine or []))
+    skip_lead = any(q.get("flags", {}).get("skip_leading_ws") for q in (sh.quarantine or []))
+    injector = T.Injector(T.ALL_CLASSES, blocked=blocked, one_comment_per_construct=one_per)
 
     # ---- (c) families: each shard takes its slice
     names = sorted(FAMILIES)
@@ -225,6 +293,12 @@ def run_shard(sh):
         if not cst.env_ok(text):
             sh.notes["env-size-limit"] += 1
             return
+        if skip_lead and mode != "valid" and text[:1].isspace():
+            if cst.parse(text).root.has_error:
+                pass  # erroneous sources are passed through raw: unaffected by F01
+            else:
+                sh.excluded += 1
+                return
         status, sig = run_once(text)
         erroneous = cst.parse(text).root.has_error
         case = {"kind": "text", "text": text}
@@ -239,3 +313,4 @@ def run_shard(sh):
 
     prop()
     sh.excluded += injector.excluded
+    atheris_campaign(sh, sh.params["fuzz_runs"], sh.params["fuzz_time"])
